@@ -173,7 +173,11 @@ var variantTypeDefault = &VariantType{types: []px.Type{}}
 // tupleAssignableTo answers if all elements of instances of the given tuple are assignable to o. A tuple
 // without declared types (and a size that allows elements) has elements of any type.
 func tupleAssignableTo(t *TupleType, o px.Type, g px.Guard) bool {
-	if len(t.types) == 0 && t.givenOrActualSize.max > 0 {
+	if t.givenOrActualSize.max <= 0 {
+		// The only instance is the empty array: there is no element that o must accept
+		return true
+	}
+	if len(t.types) == 0 {
 		return GuardedIsAssignable(o, anyTypeDefault, g)
 	}
 	return allAssignableTo(t.types, o, g)
